@@ -28,7 +28,7 @@ type Op struct {
 	SinkRet  bool     `json:"sinkRet,omitempty"` // sink returns the event instead of nil
 	V        int      `json:"v,omitempty"`
 	Reuse    bool     `json:"reuse,omitempty"`   // regnode: register the SAME node object that is currently registered under the id
-	Shape    int      `json:"shape,omitempty"`   // regnode: 0 plain *N, 1 Unwrapper-only wrapper, 2 wrapper that is Closer and Unwrapper, 3 uncomparable value node
+	Shape    int      `json:"shape,omitempty"`   // regnode: 0 plain *N, 1 Unwrapper-only wrapper, 2 wrapper that is Closer and Unwrapper, 3 uncomparable value node, 4 twelve Unwrap-only decorators around the node
 	CtxDone  bool     `json:"ctxDone,omitempty"` // rpan / rmnode: call with an already cancelled context
 	Dress    int      `json:"dress,omitempty"`   // regnode / regpipe: how the option list is dressed up (the effective policy stays Pol): 1 a nil option first, 2 the opposite policy first (last one wins), 3 an option of the OTHER kind (node vs pipeline) with the opposite policy appended
 }
@@ -48,7 +48,7 @@ func (o Op) String() string {
 			x += ",sameObject"
 		}
 		if o.Shape != 0 {
-			x += [...]string{"", ",unwrapper", ",closer+unwrapper", ",uncomparable-value"}[o.Shape]
+			x += [...]string{"", ",unwrapper", ",closer+unwrapper", ",uncomparable-value", ",12-decorators"}[o.Shape]
 		}
 		x += [...]string{"", ",nil-option-first", ",opposite-policy-first", ",other-kind-option-last"}[o.Dress&3]
 		return fmt.Sprintf("RegNode(%q,%s%s%s)", o.N, TypeName(o.NT), pol, x)
@@ -240,6 +240,8 @@ func (x *Exec) Apply(op Op) Result {
 			obj = w
 		case 3:
 			obj = nodes.Uncomparable{Inner: n, Pad: []int{1}}
+		case 4:
+			obj = nodes.WrapDeep(n, 12) // a dozen decorators around the closable node
 		}
 		r.Err = x.B.RegisterNode(eventlogger.NodeID(op.N), obj, dressed(true, op.Pol, op.Dress)...)
 		if r.Err == nil {
